@@ -185,7 +185,9 @@ impl ISocketConnection for VConn {
     match self.attempt(true, &msgs) {
       VReady::Accept => Ok(()),
       VReady::Full => Err((msgs, ZmqError::ResourceLimitReached)),
-      VReady::Closed => Err((FrameBatch::new(), ZmqError::Timeout)),
+      // both ways a real blocking send loses its batch: the timer expired (even-numbered peers) / the pipe's
+      // receiver went away while the send was parked (odd-numbered peers)
+      VReady::Closed => Err((FrameBatch::new(), if self.uri % 2 == 1 { ZmqError::ConnectionClosed } else { ZmqError::Timeout })),
     }
   }
 
